@@ -77,7 +77,7 @@ Theorem C40_checker_sound : forall (strict : bool) (rec : list (nat * N * N)) (e
      | [] => True
      | ev :: t =>
          (e_kind ev <> KEdit ->
-          forall w ws, In (w, ws) (s_ws st) ->
+          forall w ws, lookupN w (s_ws st) = Some ws ->
             ((match lookupN w (e_ws_post ev) with
               | Some ws' => w_disk ws' <> w_disk ws
               | None => True
@@ -93,6 +93,15 @@ Proof.
   apply andb_true_iff in H. destruct H as [H1 H2]. split; [|now apply IH].
   exact (event_okb_spec strict rec st ev H1).
 Qed.
+
+(** Every trace the model accepts passes the non-strict oracle, whenever [rec] lists at least
+    what the final operation list records (which [check_case] verifies against the independent
+    enumeration of the real operation log). *)
+Theorem C40_accepted_runs_ok : forall (rec : list (nat * N * N)) (evs : list event) (st stf : state),
+  run st evs = Some stf ->
+  (forall i w d, tree_of (s_ops stf) i w = Some d -> In (i, w, d) rec) ->
+  run_okb false rec st evs = true.
+Proof. exact run_accept_okb. Qed.
 
 (** Without the hypothesis on the view the statement is false of the faithful model: a
     command run in a workspace that the loaded view does not contain skips the snapshot and
@@ -146,4 +155,5 @@ Proof. vm_compute. repeat split; eauto. Qed.
 
 Print Assumptions C40_recorded_before_overwrite.
 Print Assumptions C40_recoverable_at_end.
+Print Assumptions C40_accepted_runs_ok.
 Print Assumptions C40_full_refuted.
